@@ -18,6 +18,12 @@ GTraffs == {1, 2}
 EnvOr(n, d) == IF n \in DOMAIN IOEnv THEN IOEnv[n] ELSE d
 Depth == atoi(EnvOr("VERIF_DEPTH", "16"))
 GMaxOps == atoi(EnvOr("VERIF_MAXOPS", "6"))
+\* VERIF_FRESH=1: accounting has not seen the peers yet; the first contact (RetrieveTraffic under the map mutex)
+\* is then part of the behaviour, and the driver does not touch a peer before the scenario does
+GFresh == EnvOr("VERIF_FRESH", "0") = "1"
+
+\* VERIF_ONEPEER=1: every call targets peer 1 (all goroutines meet on the same, possibly fresh, peer)
+GCalls == IF EnvOr("VERIF_ONEPEER", "0") = "1" THEN {c \in Calls : c.p = 1} ELSE Calls
 
 CallOp(t, c) == [op |-> "call", t |-> t, kind |-> c.kind, p |-> c.p, x |-> c.x, traff |-> c.traff, avail |-> c.avail]
 
@@ -27,7 +33,7 @@ GNext ==
   /\ \/ /\ A.granted # 0 /\ Do(Grant(A, A.granted), "grant") /\ UNCHANGED nops
         /\ hist' = Append(hist, [op |-> "grant", t |-> A.granted])
      \/ /\ nops < GMaxOps /\ nops' = nops + 1
-        /\ \E t \in Threads, c \in Calls :
+        /\ \E t \in Threads, c \in GCalls :
              StartAllowed(A, t, c) /\ Do(Start(A, t, c), "call") /\ hist' = Append(hist, CallOp(t, c))
      \/ /\ UNCHANGED nops
         /\ \E t \in Threads : ReleaseOK(A, t) /\ Do(Release(A, t), "release")
@@ -35,9 +41,9 @@ GNext ==
 GSpec == GInit /\ [][GNext]_<<vars, nops, hist>>
 
 \* counters are not part of the view: two states that differ only in them continue alike
-EdgeView == <<A.unpaid, A.lock, A.pc, A.loc, A.granted, IF hist = <<>> THEN <<>> ELSE <<hist[Len(hist)]>> >>
+EdgeView == <<A.unpaid, A.lock, A.known, A.maplock, A.pc, A.loc, A.granted, IF hist = <<>> THEN <<>> ELSE <<hist[Len(hist)]>> >>
 
-Scn == [par |-> [thr |-> Thr, tol |-> Tol, init |-> <<0, 0>>], ops |-> hist]
+Scn == [par |-> [thr |-> Thr, tol |-> Tol, init |-> <<0, 0>>, fresh |-> GFresh], ops |-> hist]
 EmitAll  == hist # <<>> => PrintT(<<"SCN", ToJson(Scn)>>)
 \* simulation: behaviours that used all their calls, or are long
 EmitFull == (Len(hist) = Depth \/ (nops = GMaxOps /\ \A t \in Threads : A.pc[t] = "idle")) => PrintT(<<"SCN", ToJson(Scn)>>)
